@@ -1,4 +1,5 @@
 """C11 - research.backtest is a pure, repeatable function of its arguments (named process-global state)."""
+import ast
 import json
 import os
 from fractions import Fraction
@@ -166,6 +167,46 @@ def t_store_reset(h):
         h.prove(calls == ['install_routes'], 'store-reset.routes-reinstalled-in-production-mode')
 
 
+STATE_CLASSES = {'AppState': 'state_app', 'OrdersState': 'state_orders', 'ClosedTrades': 'state_completed_trades', 'LogsState': 'state_logs',
+                 'ExchangesState': 'state_exchanges', 'CandlesState': 'state_candles', 'PositionsState': 'state_positions',
+                 'TickersState': 'state_tickers', 'TradesState': 'state_trades', 'OrderbookState': 'state_orderbook'}
+
+
+def t_state_classes(h):
+    """mechanical: a state object created by store.reset() is fresh only if its class keeps no mutable object at class level
+    (a list / dict / set / call result in the class body is shared by every instance, i.e. by every session of the process)"""
+    bad = []
+    for n, m in sorted(STATE_CLASSES.items()):
+        c = h.repo.find(f'jesse.store.{m}.{n}')
+        for st in c.node.body:
+            if isinstance(st, (ast.Assign, ast.AnnAssign)) and st.value is not None and not isinstance(st.value, ast.Constant):
+                tg = st.targets[0] if isinstance(st, ast.Assign) else st.target
+                bad.append(f'{n}.{ast.unparse(tg)}')
+    h.prove(bad == [], 'store-reset.state-classes-keep-no-mutable-object-at-class-level', {'class_level_objects': bad})
+
+
+def t_router(h):
+    """two sessions with the same route arguments: RouterClass.initiate installs them and leaves the caller's lists alone"""
+    calls = []
+    store = Obj(None, {'reset': Builtin('store.reset', lambda i, a, k: calls.append('store.reset'))}, name='store')
+    h.ctx.cfg.globals['jesse.store.store'] = lambda i: store
+    h.ctx.cfg.overrides['jesse.models.Route.Route'] = lambda i, a, k: Obj(None, {'exchange': a[0], 'symbol': a[1], 'timeframe': a[2], 'strategy_name': a[3]}, name='route')
+    S = Obj(None, {}, name='StrategyClass')
+    routes = [{'exchange': 'Sandbox', 'strategy': S, 'symbol': 'BTC-USDT', 'timeframe': '5m'}]
+    data_routes = [{'exchange': 'Sandbox', 'symbol': 'BTC-USDT', 'timeframe': '15m'}, {'exchange': 'Sandbox', 'symbol': 'ETH-USDT', 'timeframe': '1h'}]
+    snap = ([dict(r) for r in routes], [dict(r) for r in data_routes])
+    r = h.interp.instantiate(h.repo.find('jesse.routes.RouterClass'), [], {})
+    for session in (1, 2):
+        out = h.method_outcome(r, 'initiate', routes, data_routes)
+        h.prove(out.ok, 'router.no-exception', {'raised': out.exc, 'session': session})
+        if not out.ok:
+            return
+        same = [dict(x) for x in routes] == snap[0] and [dict(x) for x in data_routes] == snap[1]
+        h.prove(same, 'router.route-arguments-are-left-unmodified-in-every-session', {'session': session, 'data_routes_now': len(data_routes)})
+        inst = len(r.f['routes']) == 1 and [dict(x) for x in r.f['data_candles']] == snap[1]
+        h.prove(inst, 'router.installs-exactly-the-routes-of-the-arguments', {'session': session})
+
+
 def t_prologue(with_warmup):
     def t(h):
         calls = []
@@ -309,6 +350,8 @@ def tasks(tier):
           Task('set_config', t_set_config('set_config'), extra=dict(x), overrides=dict(ov)),
           Task('reset_config', t_set_config('reset_config'), extra=dict(x), overrides=dict(ov)),
           Task('store-reset', t_store_reset, extra=dict(x), overrides=dict(ov)),
+          Task('state-classes', t_state_classes, extra=dict(x)),
+          Task('router', t_router, extra=dict(x), overrides=dict(ov)),
           Task('prologue.warmup', t_prologue(True), extra=dict(x), overrides=dict(ov)),
           Task('prologue.nowarmup', t_prologue(False), extra=dict(x), overrides=dict(ov)),
           Task('drivers', t_drivers, extra=dict(x), overrides=dict(ov)),
